@@ -163,8 +163,9 @@ fn incremental_inner(input: &[u8], p: &P, rg: &RefGame, aspects: i64) -> Result<
 			compare_frames(state.frames(), rg, done, false).map_err(|(k, m)| e(&format!("inc-{}", k), format!("after event #{} (code {:#x}, {} rows complete): {}", n, code, done, m)))?;
 		}
 		if aspects & A_TRANSPOSE != 0 && look {
-			// only the rows completed by this event need a fresh look (earlier ones were checked before)
-			let from = if n == 0 { 0 } else { rg.rows_done[n - 1] };
+			// every completed row is looked at again after every event: a completed row must not change
+			// while later frames are being filled (long games: only the last 3 completed rows)
+			let from = if done > 8 { done - 3 } else { 0 };
 			for i in from..done {
 				let t = state.frames().transpose_one(i, state.start().slippi.version);
 				compare_transposed(state.frames(), i, &t).map_err(|(k, m)| e(&format!("inc-{}", k), format!("in-progress, after event #{}: {}", n, m)))?;
